@@ -11,7 +11,7 @@ def Settled (c : Conn) : Prop := c.nSC ≤ 1 ∧ c.nSD + c.nSE = c.nSC ∧ c.nSX
 def ConnInv (c : Conn) : Prop :=
   match c.pc with
   | .created | .started => c.nSC = 0 ∧ c.nSD = 0 ∧ c.nSE = 0 ∧ c.nSX = 0 ∧ c.entry = true
-  | .inSC | .preSem | .inSem | .inConn | .preSE _ | .preSD =>
+  | .inSC | .preSem | .inSem | .semCancelled | .semWoken | .inConn | .preSE _ | .preSD =>
     c.nSC = 1 ∧ c.nSD = 0 ∧ c.nSE = 0 ∧ c.nSX = 0 ∧ c.entry = true
   | .inSE _ | .preEvErr _ => c.nSC = 1 ∧ c.nSD = 0 ∧ c.nSE = 1 ∧ c.nSX = 0 ∧ c.entry = true
   | .inSD | .preEvOk | .inRead | .preEvData | .afterData | .preEvClosed | .preClose | .preSX =>
@@ -44,8 +44,7 @@ theorem newConn_inv (k : Nat) (a : Option Nat) : ConnInv (newConn k a) := by
 /-- what one action of an open_connection task preserves -/
 theorem stepS_inv {c c' : Conn} {a : Act} {free : Bool} {cmds : List Cmd}
     (hi : ConnInv c) (h : stepS c a free = some (c', cmds)) :
-    ConnInv c' ∧ c'.addr = c.addr ∧ (c'.entry = true → c.entry = true) ∧
-    (holding c'.pc = true → holding c.pc = true ∨ free = true) ∧ c'.cbs = c.cbs := by
+    ConnInv c' ∧ c'.addr = c.addr ∧ (c'.entry = true → c.entry = true) ∧ c'.cbs = c.cbs := by
   unfold stepS at h
   split at h <;> (try split at h) <;>
     simp only [Option.some.injEq, Prod.mk.injEq, reduceCtorEq] at h <;>
@@ -59,10 +58,11 @@ theorem applyCmds_spec : ∀ (cmds : List Cmd) (s s' : St), applyCmds s cmds = s
     (∃ new, s'.conns = s.conns ++ new ∧ (∀ c ∈ new, ∃ k a, c = newConn k a) ∧
       (s'.lateOpen = false → s.lateOpen = false ∧ (isLate s.hpc = true → new = []))) ∧
     s'.hpc = s.hpc ∧ s'.cpc = s.cpc ∧ s'.centry = s.centry ∧ s'.cwopen = s.cwopen ∧
-    s'.nCC = s.nCC ∧ s'.nCD = s.nCD ∧ s'.size = s.size ∧ s'.ccbs = s.ccbs ∧ s'.hcount = s.hcount := by
+    s'.nCC = s.nCC ∧ s'.nCD = s.nCD ∧ s'.size = s.size ∧ s'.ccbs = s.ccbs ∧ s'.hcount = s.hcount ∧
+    s'.semv = s.semv ∧ s'.waiters = s.waiters := by
   intro cmds
   induction cmds with
-  | nil => intro s s' h; simp [applyCmds] at h; subst h; exact ⟨⟨[], by simp⟩, rfl, rfl, rfl, rfl, rfl, rfl, rfl, rfl, rfl⟩
+  | nil => intro s s' h; simp [applyCmds] at h; subst h; exact ⟨⟨[], by simp⟩, rfl, rfl, rfl, rfl, rfl, rfl, rfl, rfl, rfl, rfl, rfl⟩
   | cons c cs ih =>
     intro s s' h
     simp only [applyCmds] at h
@@ -70,18 +70,18 @@ theorem applyCmds_spec : ∀ (cmds : List Cmd) (s s' : St), applyCmds s cmds = s
     | none => simp [hc] at h
     | some s1 =>
       simp only [hc] at h
-      obtain ⟨⟨new, hn1, hn2, hn3⟩, h1, h2, h3, h4, h5, h6, h7, h8, h9⟩ := ih s1 s' h
+      obtain ⟨⟨new, hn1, hn2, hn3⟩, h1, h2, h3, h4, h5, h6, h7, h8, h9, h10, h11⟩ := ih s1 s' h
       cases c with
       | spawn =>
         simp [applyCmd] at hc; subst hc
         exact ⟨⟨new, by simpa using hn1, hn2, by simpa using hn3⟩, by simpa using h1, by simpa using h2,
-          by simpa using h3, by simpa using h4, by simpa using h5, by simpa using h6, by simpa using h7, by simpa using h8, by simpa using h9⟩
+          by simpa using h3, by simpa using h4, by simpa using h5, by simpa using h6, by simpa using h7, by simpa using h8, by simpa using h9, by simpa using h10, by simpa using h11⟩
       | opn key addr =>
         simp only [applyCmd] at hc
         split at hc
         · simp only [Option.some.injEq] at hc; subst hc
           refine ⟨⟨newConn key addr :: new, by simpa using hn1, ?_, ?_⟩, by simpa using h1, by simpa using h2,
-            by simpa using h3, by simpa using h4, by simpa using h5, by simpa using h6, by simpa using h7, by simpa using h8, by simpa using h9⟩
+            by simpa using h3, by simpa using h4, by simpa using h5, by simpa using h6, by simpa using h7, by simpa using h8, by simpa using h9, by simpa using h10, by simpa using h11⟩
           · intro c hc
             rcases List.mem_cons.mp hc with rfl | hc
             · exact ⟨key, addr, rfl⟩
@@ -137,7 +137,6 @@ def HInv (s : St) : Prop :=
 
 structure Inv (s : St) : Prop where
   conn : ∀ c ∈ s.conns, ConnInv c
-  sem : ∀ a, s.conns.countP (holdsAt a) ≤ s.size
   h : HInv s
   cb : ∀ c ∈ s.conns, CbInv c
   cl : CInv s
@@ -153,13 +152,7 @@ theorem holdsAt_new (a k : Nat) (ad : Option Nat) : holdsAt a (newConn k ad) = f
   simp [holdsAt, newConn, holding]
 
 theorem Inv.apply {s s' : St} {cmds : List Cmd} (hi : Inv s) (h : applyCmds s cmds = some s') : Inv s' := by
-  obtain ⟨⟨new, hn1, hn2, hn3⟩, h1, h2, h3, h4, h5, h6, h7, h8, h9⟩ := applyCmds_spec cmds s s' h
-  have hcount : ∀ a, new.countP (holdsAt a) = 0 := by
-    intro a
-    rw [List.countP_eq_zero]
-    intro c hc
-    obtain ⟨k, ad, rfl⟩ := hn2 c hc
-    simp [holdsAt_new]
+  obtain ⟨⟨new, hn1, hn2, hn3⟩, h1, h2, h3, h4, h5, h6, h7, h8, h9, _, _⟩ := applyCmds_spec cmds s s' h
   have hwcount : new.countP hasWait = 0 := by
     rw [List.countP_eq_zero]
     intro c hc
@@ -171,9 +164,6 @@ theorem Inv.apply {s s' : St} {cmds : List Cmd} (hi : Inv s) (h : applyCmds s cm
     rcases List.mem_append.mp hc with hc | hc
     · exact hi.conn c hc
     · obtain ⟨k, a, rfl⟩ := hn2 c hc; exact newConn_inv k a
-  · intro a
-    rw [hn1, List.countP_append, hcount a, h7]
-    simpa using hi.sem a
   · have := hi.h
     unfold HInv at this ⊢
     rw [h1, h3, h4, h5, h6]; exact this
@@ -221,7 +211,6 @@ theorem mem_of_getElem? {l : List Conn} {i : Nat} {c : Conn} (h : l[i]? = some c
 theorem Inv.set {s : St} {i : Nat} {c c' : Conn} {n : Nat}
     (hi : Inv s) (hc : s.conns[i]? = some c)
     (h1 : ConnInv c') (h2 : c'.addr = c.addr) (h3 : c'.entry = true → c.entry = true)
-    (h4 : holding c'.pc = true → holding c.pc = true ∨ semFree s c = true)
     (h5 : CbInv c') (h6 : hasWait c' = true → hasWait c = true)
     (h7 : c'.entry = true → hasWait c = true → hasWait c' = true)
     (h8 : n + (if hasWait c = true then 1 else 0) = s.hcount + (if hasWait c' = true then 1 else 0)) :
@@ -239,30 +228,6 @@ theorem Inv.set {s : St} {i : Nat} {c c' : Conn} {n : Nat}
     rcases mem_set_cases hd with rfl | hd
     · exact h1
     · exact hi.conn d hd
-  · intro a'
-    show (s.conns.set i c').countP (holdsAt a') ≤ s.size
-    rw [List.countP_set hlt, hci]
-    have hs := hi.sem a'
-    by_cases hn : holdsAt a' c' = true
-    · by_cases ho : holdsAt a' c = true
-      · simp only [hn, ho, if_true]
-        have : 0 < s.conns.countP (holdsAt a') := List.countP_pos_iff.mpr ⟨c, hmem, ho⟩
-        omega
-      · -- the task acquired the semaphore in this action
-        simp only [holdsAt, Bool.and_eq_true, beq_iff_eq] at hn
-        obtain ⟨hh, ha⟩ := hn
-        have hfree : semFree s c = true := by
-          rcases h4 hh with h | h
-          · exfalso; apply ho; simp [holdsAt, h, ← h2, ha]
-          · exact h
-        rw [h2] at ha
-        simp only [semFree, ha, decide_eq_true_eq] at hfree
-        simp only [holdsAt, hh, ← h2 ▸ ha, Bool.true_and] at *
-        simp_all
-        omega
-    · simp only [hn]
-      simp only [Bool.false_eq_true, if_false, Nat.add_zero]
-      omega
   · exact hi.h
   · intro d hd
     rcases mem_set_cases hd with rfl | hd
@@ -328,6 +293,61 @@ theorem regWait_inv {c : Conn} (h1 : ConnInv c) (h2 : CbInv c) (h3 : hasWait c =
     rw [hr]
     exact ⟨h1, h2, rfl, fun _ => rfl, fun h => absurd h he⟩
 
+/-- the semaphore's own fields are not mentioned by the lifecycle invariant -/
+theorem Inv.semfields {s : St} (hi : Inv s) (f : Nat → Nat) (g : Nat → List Nat) :
+    Inv { s with semv := f, waiters := g } :=
+  ⟨hi.conn, hi.h, hi.cb, hi.cl, hi.wait, hi.nowait, hi.fin, hi.ret⟩
+
+theorem firstWaiting_spec : ∀ (conns : List Conn) (w : List Nat) (j : Nat), firstWaiting conns w = some j →
+    j ∈ w ∧ ∃ d, conns[j]? = some d ∧ d.pc = .inSem := by
+  intro conns w
+  induction w with
+  | nil => intro j h; simp [firstWaiting] at h
+  | cons k ks ih =>
+    intro j h
+    simp only [firstWaiting] at h
+    split at h
+    · rename_i d hd
+      split at h
+      · rename_i hpc
+        simp only [Option.some.injEq] at h; subst h
+        exact ⟨List.mem_cons_self, d, hd, hpc⟩
+      · obtain ⟨h1, h2⟩ := ih j h
+        exact ⟨List.mem_cons_of_mem _ h1, h2⟩
+    · obtain ⟨h1, h2⟩ := ih j h
+      exact ⟨List.mem_cons_of_mem _ h1, h2⟩
+
+/-- handing a slot to a queued waiter does not touch the lifecycle invariant -/
+theorem Inv.wake {s : St} (hi : Inv s) (ad : Nat) : Inv (wakeNext s ad) := by
+  unfold wakeNext
+  split
+  · exact hi
+  · split
+    · exact hi
+    · rename_i j hj
+      obtain ⟨_, d, hd, hpc⟩ := firstWaiting_spec _ _ _ hj
+      simp only [hd]
+      have hmem := mem_of_getElem? hd
+      have hci := hi.conn d hmem
+      have hcb := hi.cb d hmem
+      have := Inv.set (n := s.hcount) (c' := { d with pc := .semWoken }) hi hd
+        (by unfold ConnInv at hci ⊢; simp only [hpc] at hci; exact hci) rfl (fun h => h)
+        hcb (fun h => h) (fun _ h => h) rfl
+      exact Inv.semfields this _ _
+
+theorem Inv.semEffect {s : St} (hi : Inv s) (i : Nat) (c : Conn) (a : Act) : Inv (semEffect s i c a) := by
+  unfold MitmVerif.C09.semEffect
+  split
+  · exact hi
+  · split
+    · exact Inv.semfields hi _ _
+    · exact Inv.semfields hi _ _
+    · exact Inv.wake (Inv.semfields hi _ _) _
+    · exact Inv.semfields hi _ _
+    · exact Inv.wake (Inv.semfields hi _ _) _
+    · exact Inv.wake (Inv.semfields hi _ _) _
+    · exact hi
+
 theorem stepC_nonabsent {pc pc' : CPC} {a : Act} {cmds : List Cmd} {b : Bool}
     (h : stepC pc a = some (pc', cmds, b)) : pc ≠ .absent ∧ pc' ≠ .absent := by
   unfold stepC at h
@@ -347,22 +367,22 @@ theorem Inv.preserved {s s' : St} {l : Label} (hi : Inv s) (h : step s l = some 
       split at h
       · -- h0, hook cc
         simp only [Option.some.injEq] at h; subst h
-        exact ⟨hi.conn, hi.sem, by unfold HInv at hh ⊢; simp_all, hi.cb, by unfold CInv cwait at hcl ⊢; simp_all [preC, postC, cwait],
+        exact ⟨hi.conn, by unfold HInv at hh ⊢; simp_all, hi.cb, by unfold CInv cwait at hcl ⊢; simp_all [preC, postC, cwait],
           hi.wait, fun _ => hi.nowait (by simp_all [isLate]), by intro hw; simp at hw, by intro hr; simp at hr⟩
       · simp only [Option.some.injEq] at h; subst h
-        exact ⟨hi.conn, hi.sem, by unfold HInv at hh ⊢; simp_all, hi.cb, by unfold CInv cwait at hcl ⊢; simp_all [preC, postC, cwait],
+        exact ⟨hi.conn, by unfold HInv at hh ⊢; simp_all, hi.cb, by unfold CInv cwait at hcl ⊢; simp_all [preC, postC, cwait],
           hi.wait, fun _ => hi.nowait (by simp_all [isLate]), by intro hw; simp at hw, by intro hr; simp at hr⟩
       · simp only [Option.some.injEq] at h; subst h
-        exact ⟨hi.conn, hi.sem, by unfold HInv at hh ⊢; simp_all, hi.cb, by unfold CInv cwait at hcl ⊢; simp_all [preC, postC, cwait],
+        exact ⟨hi.conn, by unfold HInv at hh ⊢; simp_all, hi.cb, by unfold CInv cwait at hcl ⊢; simp_all [preC, postC, cwait],
           hi.wait, fun _ => hi.nowait (by simp_all [isLate]), by intro hw; simp at hw, by intro hr; simp at hr⟩
       · -- killClose, wclose
         simp only [Option.some.injEq] at h; subst h
-        exact ⟨hi.conn, hi.sem, by unfold HInv at hh ⊢; simp_all, hi.cb, by unfold CInv cwait at hcl ⊢; simp_all [preC, postC, cwait],
+        exact ⟨hi.conn, by unfold HInv at hh ⊢; simp_all, hi.cb, by unfold CInv cwait at hcl ⊢; simp_all [preC, postC, cwait],
           hi.wait, fun _ => hi.nowait (by simp_all [isLate]), by intro hw; simp at hw, by intro hr; simp at hr⟩
       · -- preStart, ev start: create the client handler task, wait for it
         refine Inv.apply (?_ : Inv _) h
         have hnw := hi.nowait (by simp_all [isLate])
-        refine ⟨hi.conn, hi.sem, by unfold HInv at hh ⊢; simp_all, hi.cb, by unfold CInv cwait at hcl ⊢; simp_all [preC, postC, cwait], ?_,
+        refine ⟨hi.conn, by unfold HInv at hh ⊢; simp_all, hi.cb, by unfold CInv cwait at hcl ⊢; simp_all [preC, postC, cwait], ?_,
           fun _ => hnw, by intro hw; simp at hw, by intro hr; simp at hr⟩
         show 1 = s.conns.countP hasWait + _
         have : s.conns.countP hasWait = 0 := by
@@ -381,29 +401,21 @@ theorem Inv.preserved {s s' : St} {l : Label} (hi : Inv s) (h : step s l = some 
             | true =>
               have := hown (hpres (by assumption)) hcen
               simp [cwait, this, hzero] at hw
-          exact ⟨hi.conn, hi.sem, by unfold HInv at hh ⊢; simp_all, hi.cb, by unfold CInv cwait at hcl ⊢; simp_all [preC, postC, cwait],
+          exact ⟨hi.conn, by unfold HInv at hh ⊢; simp_all, hi.cb, by unfold CInv cwait at hcl ⊢; simp_all [preC, postC, cwait],
             hi.wait, fun _ => hi.nowait (by simp_all [isLate]), by intro hw; simp at hw, by intro hr; simp at hr⟩
         · simp at h
       · simp only [Option.some.injEq] at h; subst h
-        exact ⟨hi.conn, hi.sem, by unfold HInv at hh ⊢; simp_all, hi.cb, by unfold CInv cwait at hcl ⊢; simp_all [preC, postC, cwait],
+        exact ⟨hi.conn, by unfold HInv at hh ⊢; simp_all, hi.cb, by unfold CInv cwait at hcl ⊢; simp_all [preC, postC, cwait],
           hi.wait, fun _ => hi.nowait (by simp_all [isLate]), by intro hw; simp at hw, by intro hr; simp at hr⟩
       · -- inCD, hookret: register asyncio.wait's callback on every task that still has an entry
         simp only [Option.some.injEq] at h; subst h
         have hnw := hi.nowait (by simp_all [isLate])
         have hreg : ∀ d ∈ s.conns, _ := fun d hd => regWait_inv (hi.conn d hd) (hi.cb d hd) (hnw d hd)
-        refine ⟨?_, ?_, by unfold HInv at hh ⊢; simp_all, ?_, by unfold CInv cwait at hcl ⊢; simp_all [preC, postC, cwait], ?_,
+        refine ⟨?_, by unfold HInv at hh ⊢; simp_all, ?_, by unfold CInv cwait at hcl ⊢; simp_all [preC, postC, cwait], ?_,
           by intro hl; simp [isLate] at hl, ?_, by intro hr; simp at hr⟩
         · intro c hc
           obtain ⟨d, hd, rfl⟩ := List.mem_map.mp hc
           exact (hreg d hd).1
-        · intro a
-          show (s.conns.map regWait).countP (holdsAt a) ≤ s.size
-          have : (s.conns.map regWait).countP (holdsAt a) = s.conns.countP (holdsAt a) := by
-            rw [List.countP_map]
-            apply List.countP_congr
-            intro d hd
-            simp [(hreg d hd).2.2.2.1 a]
-          rw [this]; exact hi.sem a
         · intro c hc
           obtain ⟨d, hd, rfl⟩ := List.mem_map.mp hc
           exact (hreg d hd).2.1
@@ -424,7 +436,7 @@ theorem Inv.preserved {s s' : St} {l : Label} (hi : Inv s) (h : step s l = some 
         split at h
         · rename_i hzero
           simp only [Option.some.injEq] at h; subst h
-          refine ⟨hi.conn, hi.sem, by unfold HInv at hh ⊢; simp_all, hi.cb, by unfold CInv cwait at hcl ⊢; simp_all [preC, postC, cwait],
+          refine ⟨hi.conn, by unfold HInv at hh ⊢; simp_all, hi.cb, by unfold CInv cwait at hcl ⊢; simp_all [preC, postC, cwait],
             hi.wait, by intro hl; simp [isLate] at hl, by intro hw; simp at hw, ?_⟩
           intro _ hl c hc
           cases he : c.entry with
@@ -445,7 +457,7 @@ theorem Inv.preserved {s s' : St} {l : Label} (hi : Inv s) (h : step s l = some 
         have hna := stepC_nonabsent hsc
         split at h
         · refine Inv.apply (?_ : Inv _) h
-          refine ⟨hi.conn, hi.sem, ?_, hi.cb, ?_, hi.wait, hi.nowait, hi.fin, hi.ret⟩
+          refine ⟨hi.conn, ?_, hi.cb, ?_, hi.wait, hi.nowait, hi.fin, hi.ret⟩
           · unfold HInv at hh ⊢; simp only at hh ⊢
             refine ⟨by simp, ?_⟩
             have h2 := hh.2
@@ -458,7 +470,7 @@ theorem Inv.preserved {s s' : St} {l : Label} (hi : Inv s) (h : step s l = some 
             exact ⟨hcl.1, by intro _ hc; simp at hc, fun _ => hna.2, fun hab => absurd hab hna.2,
               by intro hp; simp [hpre] at hp, hcl.2.2.2.2.2⟩
         · refine Inv.apply (?_ : Inv _) h
-          refine ⟨hi.conn, hi.sem, hh, hi.cb, ?_, hi.wait, hi.nowait, hi.fin, hi.ret⟩
+          refine ⟨hi.conn, hh, hi.cb, ?_, hi.wait, hi.nowait, hi.fin, hi.ret⟩
           have hpre : preC s.hpc = false := by
             cases hp : preC s.hpc with
             | false => rfl
@@ -474,9 +486,9 @@ theorem Inv.preserved {s s' : St} {l : Label} (hi : Inv s) (h : step s l = some 
         split at h
         · rename_i c' cmds hs
           have hmem := mem_of_getElem? hc
-          obtain ⟨h1, h2, h3, h4, h5⟩ := stepS_inv (hi.conn c hmem) hs
+          obtain ⟨h1, h2, h3, h5⟩ := stepS_inv (hi.conn c hmem) hs
           have hcb := hi.cb c hmem
-          refine Inv.apply (Inv.set (n := s.hcount) hi hc h1 h2 h3 h4 ?_ ?_ ?_ ?_) h
+          refine Inv.apply (Inv.semEffect (Inv.set (n := s.hcount) hi hc h1 h2 h3 ?_ ?_ ?_ ?_) i c a) h
           · unfold CbInv at hcb ⊢; rw [h5]; exact ⟨hcb.1, fun he => hcb.2 (h3 he)⟩
           · simp [hasWait, h5]
           · simp [hasWait, h5]
@@ -488,7 +500,7 @@ theorem Inv.preserved {s s' : St} {l : Label} (hi : Inv s) (h : step s l = some 
       split at h
       · split at h
         · refine Inv.apply (?_ : Inv _) h
-          exact ⟨hi.conn, hi.sem, hi.h, hi.cb, hi.cl, hi.wait, hi.nowait, hi.fin, hi.ret⟩
+          exact ⟨hi.conn, hi.h, hi.cb, hi.cl, hi.wait, hi.nowait, hi.fin, hi.ret⟩
         · simp at h
       · simp at h
   | cb t =>
@@ -511,7 +523,7 @@ theorem Inv.preserved {s s' : St} {l : Label} (hi : Inv s) (h : step s l = some 
           subst hrest
           split at h
           · simp only [Option.some.injEq] at h; subst h
-            refine ⟨hi.conn, hi.sem, ?_, hi.cb, ?_, ?_, hi.nowait, hi.fin, hi.ret⟩
+            refine ⟨hi.conn, ?_, hi.cb, ?_, ?_, hi.nowait, hi.fin, hi.ret⟩
             · unfold HInv at hh ⊢; simp only at hh ⊢
               refine ⟨by simp, ?_⟩
               have h2 := hh.2
@@ -522,7 +534,7 @@ theorem Inv.preserved {s s' : St} {l : Label} (hi : Inv s) (h : step s l = some 
               simp only [cwait, hcb] at hw ⊢; simpa using hw
           · simp only [Option.some.injEq] at h; subst h
             rename_i hcen
-            refine ⟨hi.conn, hi.sem, hh, hi.cb, ?_, ?_, hi.nowait, hi.fin, hi.ret⟩
+            refine ⟨hi.conn, hh, hi.cb, ?_, ?_, hi.nowait, hi.fin, hi.ret⟩
             · unfold CInv cwait at hcl ⊢; simp only at hcl ⊢
               simp_all
             · show s.hcount = s.conns.countP hasWait + _
@@ -537,7 +549,7 @@ theorem Inv.preserved {s s' : St} {l : Label} (hi : Inv s) (h : step s l = some 
             | false => rfl
             | true => unfold CInv at hcl; have := hcl.2.1 hna hc; simp [hcb] at this
           simp only [Option.some.injEq] at h; subst h
-          refine ⟨hi.conn, hi.sem, hh, hi.cb, ?_, ?_, hi.nowait, hi.fin, hi.ret⟩
+          refine ⟨hi.conn, hh, hi.cb, ?_, ?_, hi.nowait, hi.fin, hi.ret⟩
           · unfold CInv cwait at hcl ⊢; simp only at hcl ⊢
             simp_all
           · show s.hcount - 1 = s.conns.countP hasWait + _
@@ -565,7 +577,7 @@ theorem Inv.preserved {s s' : St} {l : Label} (hi : Inv s) (h : step s l = some 
             have hrest : rest = [] ∨ rest = [.waitH] := by
               unfold CbInv at hcb; rcases hcb.1 with h | h | h | h <;> simp_all
             refine Inv.set (n := s.hcount) hi hc (hsett _ hdone rfl rfl rfl rfl) rfl (by simp)
-              (by simp [hdone, holding]) ?_ ?_ (by simp) ?_
+              ?_ ?_ (by simp) ?_
             · unfold CbInv; rcases hrest with h | h <;> simp [h]
             · rcases hrest with h | h <;> simp [hasWait, h, hcbs]
             · rcases hrest with h | h <;> simp [hasWait, h, hcbs]
@@ -583,7 +595,7 @@ theorem Inv.preserved {s s' : St} {l : Label} (hi : Inv s) (h : step s l = some 
             have hpos : 0 < s.conns.countP hasWait := List.countP_pos_iff.mpr ⟨c, hmem, hwc⟩
             have hw := hi.wait
             refine Inv.set (n := s.hcount - 1) hi hc (hsett _ hdone rfl rfl rfl rfl) rfl (by simp)
-              (by simp [hdone, holding]) ?_ (by simp [hasWait]) (by simp [hent]) ?_
+              ?_ (by simp [hasWait]) (by simp [hent]) ?_
             · unfold CbInv; simp [hent]
             · simp [hasWait, hcbs]; omega
           · simp at h
@@ -603,6 +615,20 @@ theorem Inv.preservedRun : ∀ (ls : List Label) (s s' : St), Inv s → run s ls
       simp only [hs] at h
       exact ih s1 s' (Inv.preserved hi hs) h
 
+theorem wakeNext_size (s : St) (ad : Nat) : (wakeNext s ad).size = s.size := by
+  unfold wakeNext
+  split
+  · rfl
+  · split
+    · rfl
+    · split <;> rfl
+
+theorem semEffect_size (s : St) (i : Nat) (c : Conn) (a : Act) : (semEffect s i c a).size = s.size := by
+  unfold semEffect
+  split
+  · rfl
+  · split <;> (try rfl) <;> (rw [wakeNext_size])
+
 theorem size_step {s s' : St} {l : Label} (h : step s l = some s') : s'.size = s.size := by
   cases l with
   | act t a =>
@@ -621,7 +647,7 @@ theorem size_step {s s' : St} {l : Label} (h : step s l = some s') : s'.size = s
       simp only [step] at h
       split at h
       · split at h
-        · exact (applyCmds_spec _ _ _ h).2.2.2.2.2.2.2.1
+        · exact ((applyCmds_spec _ _ _ h).2.2.2.2.2.2.2.1).trans (semEffect_size _ _ _ _)
         · simp at h
       · simp at h
     | K i =>
